@@ -52,6 +52,14 @@ CLAIMS = {
              "dumped natively from the real builders; m>64 (256) and AVX-512/SSE units outside",
         technique="CBMC symbolic execution of the real code, exported VC re-interpreted in a real-arithmetic domain with rounding radii (vcalg); bit-precise CBMC run for memory/frame; native replay",
         ref="DESIGN.md 4/C06"),
+    "C14": dict(
+        text="Bit-precise bounded model checking of every conversion kernel (reference and AVX2 through the shim) and of the real init_* selection "
+             "logic: every lane symbolic over its whole documented window (|x|<2^50, |x/d|<2^50 / 2^52, every int32, |x/d|<2^18, |x/d|<=2^log2overhead), "
+             "divisors 2^0..2^16, log2overhead values with every exponent class of x/d as its own query (the unsplit query is undecided by all SAT back ends); "
+             "the 1/2 and 2^(L-50) bounds are decided in double arithmetic via a monotone-rounding argument stated in the harness.",
+        note="cbmc 6.11 FP bit-blasting (MiniSat); rint is CBMC's model; quick tier covers log2overhead {0,18,29,48} (ref) and {29} (AVX), thorough all 0..48",
+        technique="CBMC bounded model checking (SAT, IEEE-754 bit-precise) of the real conversion kernels, domain split by exponent class; native replay",
+        ref="DESIGN.md 4/C14"),
 }
 
 NOT_YET = "check not built yet in this session (work in progress; see DESIGN.md section 4 for the plan)"
